@@ -248,27 +248,98 @@ def rule_tok(S):
              path=e['path'])
 
 
+def _slot_setters(facts, field):
+    """thread_info methods with one parameter whose body stores that parameter into `field` (setters found by effect)."""
+    out = set()
+    for g in facts.functions.values():
+        if g.cls != TI or len(g.params) != 1 or g.is_lambda:
+            continue
+        for n in g.all_nodes():
+            if n['k'] == 'CXXMemberCallExpr' and n.get('cn') in ('store', 'exchange'):
+                r = g.strip(call_recv(g, n), casts=True)
+                a = call_args(g, n)
+                if r is not None and r['k'] == 'MemberExpr' and r.get('name') == field and a and \
+                        root_var(g, a[0]) == g.params[0]['id']:
+                    out.add(g.fid)
+    return out
+
+
 def rule_lve(S):
     facts = S.facts()
-    S.rule('R-LVE', 'leave_thread_info: set_begin_epoch(0) and then set_running(false) on the slot behind the token, in '
-                    'that order, and no other write')
+    S.rule('R-LVE', 'leave_thread_info: on every path the slot behind the token is released (a store of false into its '
+                    'running flag, directly or through a setter) only after its begin epoch was cleared (a store of 0), '
+                    'the begin epoch is not written after the release (the slot may already belong to the next '
+                    'session, whose published epoch would be erased), and a return of OK has released the slot')
     f = facts.one(Y + 'thread_info_table::leave_thread_info')
-    tgt = None
-    for n in f.all_nodes():
-        if n['k'] == 'DeclStmt':
-            for v in n.get('vars', []):
-                if 'init' in v and root_var(f, v['init']) == f.params[0]['id']:
-                    tgt = v['id']
-    seq = []
-    for n in f.all_nodes():
-        if n['k'] == 'CXXMemberCallExpr' and n.get('mcls') == TI:
-            seq.append((n['cn'], root_var(f, call_recv(f, n)), call_args(f, n)))
-    names = [s[0] for s in seq]
-    ok = names == ['set_begin_epoch', 'set_running'] and all(s[1] in (tgt, f.params[0]['id']) for s in seq) and \
-        cv_through(f, seq[0][2][0]) == 0 and R.const_of(f, seq[1][2][0]) == 'F'
-    S.ob('R-LVE', f.qname, 'leave order', ok,
-         'begin epoch cleared before the slot is released' if ok else
-         'leave performs %s on the slot (expected set_begin_epoch(0) then set_running(false))' % names, loc=f.loc)
+    run_f = R.field_of(facts, TI, 'atomic<bool>', 'running flag')
+    ep_f = R.field_of(facts, TI, 'atomic<unsigned long>', 'begin epoch')
+    run_set, ep_set = _slot_setters(facts, run_f), _slot_setters(facts, ep_f)
+    if not run_set or not ep_set:
+        raise AnalysisBroken('R-LVE: setters of the running flag / begin epoch not found')
+    sites = {}
+    seen = {'rel': 0, 'clr': 0}
+
+    def event(nd):
+        """('rel' | 'clr' | 'epw', node) for stores into the two slot fields"""
+        if nd['k'] not in CALL_KINDS:
+            return None
+        a = call_args(f, nd)
+        if nd.get('callee') in run_set or (nd.get('callee') is None and False):
+            return 'rel' if a and R.const_of(f, a[0]) == 'F' else 'run-set'
+        if nd.get('callee') in ep_set:
+            return 'clr' if a and cv_through(f, a[0]) == 0 else 'epw'
+        if nd['k'] == 'CXXMemberCallExpr' and nd.get('cn') in ('store', 'exchange', 'compare_exchange_strong',
+                                                                 'compare_exchange_weak'):
+            r = f.strip(call_recv(f, nd), casts=True)
+            if r is not None and r['k'] == 'MemberExpr' and r.get('name') == run_f:
+                v = a[-1] if nd['cn'].startswith('compare') and len(a) >= 2 else (a[0] if a else None)
+                if nd['cn'].startswith('compare'):
+                    v = a[1]
+                return 'rel' if v is not None and R.const_of(f, v) == 'F' else 'run-set'
+            if r is not None and r['k'] == 'MemberExpr' and r.get('name') == ep_f:
+                return 'clr' if a and cv_through(f, a[0]) == 0 else 'epw'
+        return None
+
+    def note(key, loc, ok, ctx, what):
+        e = sites.setdefault(key, {'ok': True, 'loc': loc, 'path': None, 'what': what})
+        if not ok and e['ok']:
+            e['ok'] = False
+            e['path'] = ctx.witness()
+            e['what'] = what
+
+    def step(ctx, nd, st):
+        ev = event(nd)
+        if ev == 'clr':
+            seen['clr'] += 1
+            if 'rel' in st:
+                note('begin epoch written at ' + short_loc(nd), short_loc(nd), False, ctx,
+                     'the begin epoch of the slot is written after the slot was released: a session that acquired the '
+                     'slot in between has its published begin epoch erased and is invisible to the epoch thread')
+            return st | {'clr'}
+        if ev == 'epw':
+            if 'rel' in st:
+                note('begin epoch written at ' + short_loc(nd), short_loc(nd), False, ctx,
+                     'the begin epoch of the slot is written after the slot was released')
+            return st - {'clr'}
+        if ev == 'rel':
+            seen['rel'] += 1
+            note('release at ' + short_loc(nd), short_loc(nd), 'clr' in st, ctx,
+                 'the slot is released before its begin epoch was cleared')
+            return st | {'rel'}
+        if nd['k'] == 'ReturnStmt':
+            if R.ret_const(f, nd) == 'yakushima::status::OK':
+                note('return OK at ' + short_loc(nd), short_loc(nd), 'rel' in st, ctx,
+                     'leave reports OK without having released the slot')
+            return None
+        return st
+
+    Explorer(f, step).run(frozenset())
+    S.require('R-LVE', 'slot releases in leave_thread_info', seen['rel'], 1)
+    S.require('R-LVE', 'begin-epoch clears in leave_thread_info', seen['clr'], 1)
+    for key, e in sorted(sites.items()):
+        S.ob('R-LVE', f.qname, key, e['ok'],
+             'begin epoch cleared before the slot is released, not touched afterwards' if e['ok'] else e['what'],
+             loc=e['loc'], path=e['path'])
 
 
 def rule_cap(S, extra=()):
